@@ -304,7 +304,7 @@ func genC06(r *core.Rand, run int) *MuxScenario {
 	// request's own (only where no error rendering is expected: how an error is
 	// rendered under an Accept header is C05's subject)
 	if tr.proto == "http" && tr.codec != "body" && sp.Handler.Code == 0 && sp.Fault.Kind == "" && r.Chance(1, 4) {
-		sp.Accept = r.PickS("json", "proto")
+		sp.Accept = r.PickS("json", "proto", "other")
 	}
 	// a deadline that passes after the handler has made progress: the handler
 	// sends its messages, outlives the grpc-timeout asleep, then returns; the
